@@ -46,11 +46,28 @@ var errInjected = errors.New("injected error from transaction function")
 type injectedPanic struct{ at int }
 
 func genTxnProg(s sim.Source, pool []*model.Pattern, methods []string, nextTag *int, maxOps, badRate int) *TxnProg {
+	return genTxnProgHint(s, pool, methods, nextTag, maxOps, badRate, nil, world.Cfg{})
+}
+
+// genTxnProgHint draws a transaction program; when the current model set is given, operations are biased towards
+// effective ones (tracked on a private copy) and towards the tree branch of the previous operation.
+func genTxnProgHint(s sim.Source, pool []*model.Pattern, methods []string, nextTag *int, maxOps, badRate int, set *model.Set, cfg world.Cfg) *TxnProg {
 	t := &TxnProg{Managed: sim.Bool(s, "managed")}
 	n := 1 + s.Intn("txnops", maxOps)
+	h := genHint{last: -1}
+	if set != nil && s.Intn("biasedtxn", 4) != 0 {
+		h.set = set.Clone()
+	}
 	for i := 0; i < n; i++ {
 		*nextTag++
-		t.Ops = append(t.Ops, genWOp(s, pool, methods, *nextTag, true, badRate))
+		op := genWOpHint(s, pool, methods, *nextTag, true, badRate, h)
+		t.Ops = append(t.Ops, op)
+		if h.set != nil {
+			applyModel(h.set, cfg, pool, op)
+		}
+		if op.Kind != "truncate" {
+			h.last, h.lastMethod = op.Pat, op.Method
+		}
 	}
 	switch e := s.Intn("end", 10); {
 	case e < 6:
@@ -168,8 +185,13 @@ func runC02(src sim.Source, o Opts) *Result {
 
 	check := func(where string, rd world.Reader, set *model.Set) bool {
 		res.Checks++
-		got := world.MapSweep(rd, methods3, pool, prefixes)
-		want := world.ModelMapSweep(set, methods3, pool, prefixes)
+		// Txn.Iter() on an open write transaction resets its copy-on-write cache: iterate it only now and then
+		withIter := true
+		if _, isTxn := rd.(*fox.Txn); isTxn {
+			withIter = src.Intn("txniter", 4) == 3
+		}
+		got := world.MapSweepOpt(rd, methods3, pool, prefixes, withIter)
+		want := world.ModelMapSweepOpt(set, methods3, pool, prefixes, withIter)
 		if d := world.DiffLines(got, want); d != "" {
 			res.fail("C02/sweep", "%s: observation differs from the sequential map: %s", where, d)
 			return false
@@ -179,7 +201,7 @@ func runC02(src sim.Source, o Opts) *Result {
 
 	for step := 0; step < nsteps && !res.failed(); step++ {
 		if src.Intn("txnstep", 4) == 0 {
-			t := genTxnProg(src, pool, methods3, &nextTag, 6, 12)
+			t := genTxnProgHint(src, pool, methods3, &nextTag, 6, 12, committed, cfg)
 			history = append(history, t.String())
 			private := committed.Clone()
 			before := committed
@@ -227,7 +249,11 @@ func runC02(src sim.Source, o Opts) *Result {
 			res.inc("txn_" + t.End)
 		} else {
 			nextTag++
-			op := genWOp(src, pool, methods3, nextTag, false, 12)
+			hint := genHint{last: -1}
+			if src.Intn("biasedop", 4) != 0 {
+				hint.set = committed
+			}
+			op := genWOpHint(src, pool, methods3, nextTag, false, 12, hint)
 			history = append(history, op.String())
 			pre := committed.Fingerprint()
 			want := applyModel(committed, cfg, pool, op)
